@@ -65,3 +65,15 @@ Theorem C40_asis_double_counts :
             total_sent a = 20 /\ spec_sent true double_count_witness = 10.
 Proof. exact asis_double_counts. Qed.
 Print Assumptions C40_asis_double_counts.
+
+(** The boolean oracle evaluated on the implementation's counters means what it should. *)
+From PV Require Oracle.C40 Proofs.OracleTasksMetrics.
+Theorem C40_oracle_sound : forall ns evs observed,
+  Oracle.C40.check ns evs observed false = true -> wf_history ns evs = true ->
+  List.length observed = List.length evs /\
+  forall k r s v, nth_error observed k = Some (r, s, v) ->
+    let pre := firstn (S k) evs in
+    s = spec_sent ns pre /\ v = spec_recv ns pre /\
+    r = (if ns then count is_start pre - count is_end pre else 0).
+Proof. exact Proofs.OracleTasksMetrics.c40_check_sound. Qed.
+Print Assumptions C40_oracle_sound.
